@@ -37,6 +37,7 @@ type e2eProgram struct {
 	CopyN  int       `json:"copy_n"` // bytes copied A -> B with the driver's device-to-device copy kernel
 	Seed   uint64    `json:"seed"`
 	Timing bool      `json:"timing"`
+	GPU    string    `json:"gpu,omitempty"` // timing: "" = r9nano, "mi300a"
 	Geo    *geometry `json:"geo,omitempty"` // launch geometry: the steps run geomKernel over a 1/2/3-D grid of N = product work-items instead of kern.ElemKernel over a 1-D grid
 }
 
@@ -167,7 +168,11 @@ func e2eChild() {
 	}
 	rec := vlib.ChildRec()
 	sim.GetIDGenerator()
-	p := plat.Build(plat.Config{Timing: prog.Timing, NumGPUs: pl.NumGPUs})
+	p := plat.Build(plat.Config{Timing: prog.Timing, GPUType: prog.GPU, NumGPUs: pl.NumGPUs})
+	var rdmaCnt *rdmaCounter
+	if prog.Timing {
+		rdmaCnt = watchRDMA(p)
+	}
 	d := p.Driver
 	d.Run()
 	ctx := d.Init()
@@ -218,23 +223,31 @@ func e2eChild() {
 			qs[i] = d.CreateCommandQueue(ctx)
 		}
 		parts := g.hostSplit(len(pl.Spread))
-		for _, st := range prog.Steps {
+		// every step is drained before the next; slab k of step s runs on GPU
+		// (k+s) mod #GPUs, so each step consumes what another GPU produced in
+		// the step before (no host copy in between)
+		for si, st := range prog.Steps {
 			for _, part := range parts {
 				args := g.args(bufA+driver.Ptr(4*part.ElemOffset), st.C)
-				d.EnqueueLaunchKernel(qs[part.Part], geomKernel(st.Op), u32x3(part.Grid), u16x3(g.WG), &args)
+				d.EnqueueLaunchKernel(qs[(part.Part+si)%len(qs)], geomKernel(st.Op), u32x3(part.Grid), u16x3(g.WG), &args)
 			}
-			for _, part := range parts {
-				d.DrainCommandQueue(qs[part.Part])
+			for i := range qs {
+				d.DrainCommandQueue(qs[i])
 			}
 		}
 		d.SelectGPU(ctx, 1)
 	}
-	d.MemCopyD2D(ctx, bufB, bufA, prog.CopyN)
+	if prog.CopyN > 0 {
+		d.MemCopyD2D(ctx, bufB, bufA, prog.CopyN)
+	}
 	outA := make([]uint32, n)
 	outB := make([]uint32, n)
 	d.MemCopyD2H(ctx, outA, bufA)
 	d.MemCopyD2H(ctx, outB, bufB)
 	rec.Note("result", map[string]any{"a": outA, "b": outB})
+	if rdmaCnt != nil {
+		rec.Note("rdma", rdmaCnt.snapshot())
+	}
 	rec.Note("done", true)
 	os.Exit(0)
 }
@@ -288,12 +301,21 @@ func runE2E(c *vlib.Check) {
 		c.Inconclusive("harness self-check: " + err.Error())
 		return
 	}
+	if err := checkGatherKernel(); err != nil {
+		c.Inconclusive("harness self-check: " + err.Error())
+		return
+	}
+	if err := checkCDNA3Decoding(); err != nil {
+		c.Inconclusive("harness self-check: " + err.Error())
+		return
+	}
 	scratch, cleanup := vlib.Scratch("c18e2e")
 	defer cleanup()
 	type job struct {
 		prog e2eProgram
 		pl   e2ePlacement
 		res  *e2eResult
+		rdma map[int]int64
 		fail string
 	}
 	var jobs []*job
@@ -332,6 +354,18 @@ func runE2E(c *vlib.Check) {
 		// one row of 200 work-groups launched as a 2-D grid
 		geo("canon-geo-200x1-groups", false, 26, geometry{Grid: [3]int{3200, 4, 1}, WG: [3]int{16, 4, 1}}, e2eStep{kern.OpAdd, 11}),
 	)
+	// the mi300a timing platform (CDNA3 decoding and ALUs, 120 CUs per GPU): few small programs
+	mi := func(p e2eProgram) e2eProgram { p.Timing, p.GPU = true, "mi300a"; return p }
+	progs = append(progs,
+		mi(e2eProgram{ID: "canon-241-groups-mi300a", N: 64*240 + 8, Steps: []e2eStep{{kern.OpAdd, 3}, {kern.OpMul, 5}}, CopyN: 4 * (64*240 + 8), Seed: 31}),
+		// 130 x 2 work-groups of 4x4: 260 work-groups on 2 x 120 CUs; the host-split placement hands every slab to the other GPU in the second step
+		mi(geo("canon-geo-130x2-groups-of-4x4-mi300a", true, 32, geometry{Grid: [3]int{520, 8, 1}, WG: [3]int{4, 4, 1}}, e2eStep{kern.OpAdd, 5}, e2eStep{kern.OpMul, 7})),
+		mi(geo("canon-geo-3d-50x2x2-groups-mi300a", true, 33, geometry{Grid: [3]int{200, 8, 4}, WG: [3]int{4, 4, 2}}, e2eStep{kern.OpXor, 0x33}, e2eStep{kern.OpAdd, 7}, e2eStep{kern.OpMul, 3})),
+	)
+	for i := 0; i < c.N(0, 6); i++ {
+		p := genGeoProgram(base.ForkN("geo-mi300a", i), fmt.Sprintf("geo-mi300a-%d", i), true)
+		progs = append(progs, mi(p))
+	}
 	nGeoEmu, nGeoTim := c.N(12, 150), c.N(2, 16)
 	for i := 0; i < nGeoEmu; i++ {
 		progs = append(progs, genGeoProgram(base.ForkN("geo-emu", i), fmt.Sprintf("geo-emu-%d", i), false))
@@ -342,7 +376,14 @@ func runE2E(c *vlib.Check) {
 	geoSerial := 0
 	for _, pg := range progs {
 		pls := placements(pg.Timing, c.Thorough())
-		if pg.Geo != nil {
+		if pg.GPU == "mi300a" {
+			pls = []e2ePlacement{{Name: "1gpu", NumGPUs: 1}, {Name: "unified-1-2", NumGPUs: 2, Unified: []int{1, 2}}}
+			if pg.Geo != nil {
+				pls = append(pls, e2ePlacement{Name: "plain-2-host-split", NumGPUs: 2, Spread: []int{1, 2}, Split: true})
+			} else {
+				pls = append(pls, e2ePlacement{Name: "plain-2-distributed", NumGPUs: 2, Spread: []int{1, 2}})
+			}
+		} else if pg.Geo != nil {
 			pls = geoPlacements(pg.Timing, c.Thorough())
 			if !c.Thorough() && !pg.Timing && !strings.HasPrefix(pg.ID, "canon") && len(pls) > 6 {
 				// quick tier: generated programs run the first five placements and one of the others in turn
@@ -358,6 +399,9 @@ func runE2E(c *vlib.Check) {
 	// slow jobs (timing, many GPUs) first
 	sort.SliceStable(jobs, func(a, b int) bool {
 		w := func(j *job) int {
+			if j.prog.GPU == "mi300a" {
+				return 10 + j.pl.NumGPUs
+			}
 			if j.prog.Timing {
 				return j.pl.NumGPUs
 			}
@@ -376,6 +420,9 @@ func runE2E(c *vlib.Check) {
 			er := &e2eResult{A: toU32(m["a"]), B: toU32(m["b"])}
 			er.HashA, er.HashB = hashU32(er.A), hashU32(er.B)
 			j.res = er
+			if r := notes["rdma"]; len(r) > 0 {
+				j.rdma = rdmaFromNote(r[0])
+			}
 		} else if res.TimedOut {
 			j.fail = "watchdog"
 		} else {
@@ -397,10 +444,7 @@ func runE2E(c *vlib.Check) {
 				single = j
 			}
 		}
-		mode := "emu"
-		if pg.Timing {
-			mode = "timing"
-		}
+		mode := modeOf(pg.Timing, pg.GPU, false)
 		for _, j := range js {
 			c.Eval()
 			c.Count("e2e_runs", 1)
@@ -439,9 +483,24 @@ func runE2E(c *vlib.Check) {
 							extra = fmt.Sprintf("; %s; %d elements differ, the first belongs to work-group %d (flattened id) of %d; %s", pg.Geo, bad, wg, pg.Geo.totalWGs(), cls)
 							wit["differing_elements"], wit["work_group_of_first"], wit["class"] = bad, wg, cls
 							if len(j.pl.Unified) > 0 {
-								per := unifiedShare(pg.Geo.totalWGs(), len(j.pl.Unified))
+								per := unifiedShare(pg.Geo.totalWGs(), len(j.pl.Unified), cusOf(pg.GPU))
 								wit["unified_share_size"], wit["member_index_of_first"] = per, wg/per
 								extra += fmt.Sprintf(" (share of member %d of the unified device, shares of %d work-groups)", wg/per, per)
+							}
+						}
+						if pg.Timing && j.pl.NumGPUs > 1 && j.rdma != nil && pg.N >= 2048 {
+							launching := []int{1}
+							if len(j.pl.Unified) > 0 {
+								launching = j.pl.Unified
+							} else if j.pl.Split {
+								launching = j.pl.Spread
+							}
+							for _, g := range launching {
+								if j.rdma[g] == 0 {
+									wit["rdma_forwarded_requests_per_gpu"] = j.rdma
+									c.Violation(fmt.Sprintf("C18|e2e|%s|remote-access-not-forwarded", mode),
+										fmt.Sprintf("program %s on %s/%s: GPU %d runs kernels over buffers spread page-wise over the GPUs, its RDMA engine forwarded no request at all, and the final data differ (forwarded requests per GPU: %v)", pg.ID, mode, j.pl.Name, g, j.rdma), wit)
+								}
 							}
 						}
 						c.Violation(fmt.Sprintf("C18|e2e|%s|%s|differs-from-%s|buffer-%s%s", mode, j.pl.Name, wantName, buf, suffix),
@@ -459,6 +518,17 @@ func runE2E(c *vlib.Check) {
 			if ok {
 				ok = cmp("A", j.res.A, refA, "host-reference") && cmp("B", j.res.B, refB, "host-reference")
 			}
+			if ok && j.pl.Name != "1gpu" && j.rdma != nil {
+				for g, n := range j.rdma {
+					c.Count(fmt.Sprintf("rdma_forwarded_requests|%s|from-gpu%d", mode, g), n)
+				}
+				if pg.GPU == "mi300a" {
+					c.Count("e2e_mi300a_multi_gpu_runs", 1)
+				}
+				if j.pl.Split && len(pg.Steps) > 1 {
+					c.Count("e2e_host_split_steps_consuming_another_gpus_output|"+mode, int64(len(pg.Steps)-1))
+				}
+			}
 			if ok && j.pl.Name != "1gpu" && pg.Geo != nil {
 				g := *pg.Geo
 				c.Nontrivial("e2e/" + pg.ID + "/" + mode + "/" + j.pl.Name)
@@ -469,7 +539,7 @@ func runE2E(c *vlib.Check) {
 					c.Count("geom_launches_with_partial_work_groups", launches)
 				}
 				if m := len(j.pl.Unified); m > 0 {
-					rowsLt, wraps, idle := g.unifiedFacts(m)
+					rowsLt, wraps, idle := g.unifiedFacts(m, cusOf(pg.GPU))
 					c.Count("geom_unified_launches|"+mode, launches)
 					c.Distinct("geom_unified_members", fmt.Sprint(m))
 					if rowsLt {
